@@ -65,7 +65,8 @@ def check_read(uri, coll, label="", deep=True, cooler_obj=None):
                             errs.append("pixels.%s differs at rows %s: got %s want %s" % (
                                 col, bad.tolist(), px[col].values[bad].tolist(),
                                 exp[col].values[bad].tolist()))
-                        if col not in ("bin1_id", "bin2_id") and px[col].dtype != exp[col].dtype:
+                        if col not in ("bin1_id", "bin2_id") and px[col].dtype != exp[col].dtype and \
+                                str(px[col].dtype) not in getattr(coll, "dtype_alternatives", {}).get(col, ()):
                             errs.append("pixels.%s dtype %s != %s" % (col, px[col].dtype, exp[col].dtype))
             if deep and not errs:
                 for col in coll.value_columns:
